@@ -67,6 +67,14 @@ def schema_programs():
     mn = {'n': 'm', 'args': [['i', ['c', 'Item', {}]], ['j', ['c', 'Item2', {}]], ['k', ['c', 'Item3', {}]]], 'ret': ['c', 'Item', {}]}
     out.append(('named-simple-types', {'tns': TNS, 'simples': simples, 'enums': {'Shade': ['light', 'dark']}, 'classes': [Item, Item2, Item3], 'services': [{'n': 'S', 'methods': [mn]}]},
                 [[Obj('Item', code='abc', n=1), Obj('Item2', c='x', s=50, l='y', ca='zz', a1=1, a2='dark', a3=7, a4=5), Obj('Item3', s=99, cs=['ab', 'cdefgh'])]]))
+    # enumerated numbers of different types whose values are equal as Python numbers (1 == 1.0 == Decimal('1.0'))
+    import decimal as _dec
+    En = {'n': 'En', 'fields': [['d', ['p', 'Double', {'values': [1.0, 2.0]}]], ['i', ['p', 'Integer', {'values': [1, 2]}]],
+                                 ['c', ['p', 'Decimal', {'values': [tagged.enc(_dec.Decimal('1.0')), tagged.enc(_dec.Decimal('2.0'))]}]],
+                                 ['u', ['p', 'Unicode', {'values': ['1', '2']}]]]}
+    men = {'n': 'm', 'args': [['e', ['c', 'En', {}]]], 'ret': ['c', 'En', {}]}
+    out.append(('equal-valued-enumerations', {'tns': TNS, 'classes': [En], 'services': [{'n': 'S', 'methods': [men]}]},
+                [[Obj('En', d=1.0, i=2, c=_dec.Decimal('1.0'), u='2')]]))
     # one class used as the bare argument of a method (met first) and as the header of another one
     Auth = {'n': 'Auth', 'fields': [['user', U], ['n', I]]}
     login = {'n': 'm', 'args': [['a', ['c', 'Auth', {}]]], 'ret': U, 'kw': {'_body_style': 'bare'}}
